@@ -94,9 +94,9 @@ func (c *conn) terminate(err error) error {
 	}
 	c.logger.Debug("Terminating connection")
 	c.cancel(err) // Cancel the server context
-	if tx := c.tx.Swap(chan txMsg(nil)); tx != nil && tx != chan txMsg(nil) {
-		close(tx.(chan txMsg))
-	}
+	// The tx channel is detached but not closed: a concurrent send() may already hold it and would
+	// panic with "send on closed channel". The writeloop and senders observe c.ctx.Done() instead.
+	c.tx.Swap(chan txMsg(nil))
 	return c.stream.Close() // Close the connection
 }
 
